@@ -19,7 +19,7 @@ RULE = ("pairs/lists of events on a small ms grid (any order, overlaps, zero/neg
 ASSUMPTIONS = ["pulsetimes are generated so that timedelta(seconds=p) is exact at µs",
                "data equality is Python equality of the data objects (as the code under test compares them): pools avoid the "
                "1/1.0/True ambiguity, and include tuple-vs-list and int-vs-str-key partners that are unequal although they "
-               "would serialise to the same JSON; equal data is also handed in with its keys filled in a different order"]
+               "would serialise to the same JSON, and partners that are equal although spelt differently (1 / 1.0 / true, 0.0 / -0.0): these merge, and the result must carry the first one's spelling; equal data is also handed in with its keys filled in a different order"]
 
 
 def plan(tier):
@@ -44,6 +44,24 @@ class Data:
 
     def __repr__(self):
         return canon(_printable(self.data))
+
+    def exact(self):
+        """the data as spelt: equal objects of different types or signs (1 / 1.0 / True, 0.0 / -0.0) are told apart.
+        Which events merge is decided by Python equality; WHOSE data the merged event carries is judged with this."""
+        return _exact(self.data)
+
+
+def _exact(x):
+    if isinstance(x, dict):
+        return ("dict", tuple(sorted(((type(k).__name__, repr(k)), _exact(v)) for k, v in x.items())))
+    if isinstance(x, (list, tuple)):
+        return (type(x).__name__, tuple(_exact(v) for v in x))
+    return (type(x).__name__, repr(x))
+
+
+def _same(a, b):
+    """two (ts, dur, Data) triples: same interval and the same data as spelt"""
+    return a[:2] == b[:2] and a[2].exact() == b[2].exact()
 
 
 def _printable(x):
@@ -109,6 +127,8 @@ def post_merge(old, oldkw, result, exc, after, afterkw):
     got = _t(result)
     if got != want:
         return [("merge-wrong-hull", f"last={_t(last)} hb={_t(hb)} pulse_us={pu} want={want} got={got}")]
+    if not _same(got, want):
+        return [("merged-event-does-not-carry-the-first-events-data", f"last={_t(last)} hb={_t(hb)} got={got}")]
     # never shortens or moves
     if got[0] != _t(last)[0] or got[0] + got[1] < _t(last)[0] + _t(last)[1]:
         return [("merge-shortened-or-moved", f"last={_t(last)} got={got}")]
@@ -126,6 +146,8 @@ def post_reduce(old, oldkw, result, exc, after, afterkw):
     v = []
     if got != want:
         v.append(("reduce-not-left-fold", f"in={ins[:8]} pulse_us={pu} want={want[:8]} got={got[:8]}"))
+    elif not all(_same(a, b) for a, b in zip(got, want)):
+        v.append(("reduced-event-does-not-carry-its-first-members-data", f"in={ins[:8]} pulse_us={pu} want={want[:8]} got={got[:8]}"))
     # normal form, stated independently of the fold
     for a, b in zip(got, got[1:]):
         if ref_heartbeat_merge(a, b, pu) is not None:
@@ -165,6 +187,9 @@ _DATA = [{}, {"label": "a"}, {"label": "b"}, {"label": "a", "n": [1, 2]}, {"app"
 _NEAR = [({"tags": ["work", "py"]}, {"tags": {"$tuple": ["work", "py"]}}),
          ({"m": {"1": "x"}}, {"m": {"$intkeys": {"1": "x"}}}),
          ({"label": "a", "n": [1, 2]}, {"label": "a", "n": {"$tuple": [1, 2]}})]
+# pairs that ARE equal as Python data (so they merge) although they are spelt differently: the merged event keeps the first's
+_SPELT = [({"count": 1}, {"count": 1.0}), ({"active": True}, {"active": 1}), ({"z": 0.0, "l": "a"}, {"z": -0.0, "l": "a"}),
+          ({"n": [1, {"k": 0}]}, {"n": [True, {"k": False}]}), ({"label": "a", "v": 2.0}, {"label": "a", "v": 2})]
 _PULSES_US = [0, 1, 999, 1000, 1500, 10**6, 5 * 10**6, 60 * 10**6, 10**9, 123457, 2 * 10**6 + 500000]
 
 
@@ -214,6 +239,10 @@ def gen_case(rng, ctx):
         x2 = x1 if rng.random() < 0.7 else rng.choice(_DATA)
         if x1 == x2 and len(x1) > 1 and rng.random() < 0.5:
             x2 = dict(reversed(list(x2.items())))      # equal data whose keys were filled in another order
+        if rng.random() < 0.08:
+            x1, x2 = rng.choice(_SPELT)
+            if rng.random() < 0.5:
+                x1, x2 = x2, x1
         if rng.random() < 0.06:
             x1, x2 = rng.choice(_NEAR)
             if rng.random() < 0.5:
